@@ -33,7 +33,7 @@ theorem lexIdentRest_sat {n : Int} {l0 l : Lexer} {ty : ItemType} (hn : l.len = 
     · apply Sat.bind
       apply sliceOf_sat (by lx) (by lx) (by lx)
       intro _ _
-      exact errorf_sat
+      first | exact errorf_sat | exact errorfAt_sat
     · unfold emitInside
       apply Sat.bind
       em l2 hl2 hp2 hs2 hw2
@@ -48,7 +48,13 @@ theorem lexIdent_ok {n : Int} {l : Lexer} (hg : Good n l) :
   · nx d l2 hl2 hs2 hf2
     exact lexIdentRest_sat (by lx) (by lx) (by lx) (by lx) (by lx) (by lx)
   split
-  · exact lexIdentRest_sat (by lx) (by lx) (by lx) (by lx) (by lx) (by lx)
+  · apply Sat.bind
+    apply peek_sat (by lx)
+    intro p l2 hl2 hs2 hp2 hf2
+    dsimp only
+    split
+    · first | exact errorf_sat | exact errorfAt_sat
+    · exact lexIdentRest_sat (by lx) (by lx) (by lx) (by lx) (by lx) (by lx)
   split
   · exact lexIdentRest_sat (by lx) (by lx) (by lx) (by lx) (by lx) (by lx)
   split
@@ -56,7 +62,7 @@ theorem lexIdent_ok {n : Int} {l : Lexer} (hg : Good n l) :
   split
   · nx dot l2 hl2 hs2 hf2
     split
-    · exact errorf_sat
+    · first | exact errorf_sat | exact errorfAt_sat
     · nx d l3 hl3 hs3 hf3
       exact lexIdentRest_sat (by lx) (by lx) (by lx) (by lx) (by lx) (by lx)
   · exact lexIdentRest_sat (by lx) (by lx) (by lx) (by lx) (by lx) (by lx)
@@ -105,7 +111,7 @@ theorem lexString_sat {n : Int} {l0 : Lexer} (q : Int) : ∀ (k : Nat) (l : Lexe
       obtain ⟨hl1, hs1, hf1⟩ := next_facts hnx (by lx)
       unfold NextFacts at hf1
       split
-      · exact errorf_sat
+      · first | exact errorf_sat | exact errorfAt_sat
       split
       · split
         · rename_i heq
@@ -299,7 +305,7 @@ theorem lexNumber_ok {n : Int} {l : Lexer} (hg : Good n l) :
   · apply Sat.bind
     apply sliceOf_sat (by lx) (by lx) (by lx)
     intro _ _
-    exact errorf_sat
+    first | exact errorf_sat | exact errorfAt_sat
   · rename_i hok
     have hok' : ok = true := by simpa using hok
     have : l.pos < l1.pos := by
@@ -345,7 +351,7 @@ theorem lexHeaderParam_ok {n : Int} {l : Lexer} (hg : Good n l) :
   apply hasPrefixAt_sat (by lx) (by lx)
   intro pre hpre
   split
-  · exact errorf_sat
+  · first | exact errorf_sat | exact errorfAt_sat
   · rename_i hp
     have hp' : pre = true := by simpa using hp
     have hlen := hpre hp'
@@ -376,7 +382,7 @@ theorem lexHeaderParam_ok {n : Int} {l : Lexer} (hg : Good n l) :
     intro l6 hl6 hs6 hp6 hn6
     nx c l7 hl7 hs7 hf7
     split
-    · exact errorf_sat
+    · first | exact errorf_sat | exact errorfAt_sat
     · apply Sat.bind
       em l8 hl8 hp8 hs8 hw8
       apply Sat.bind
@@ -387,7 +393,7 @@ theorem lexHeaderParam_ok {n : Int} {l : Lexer} (hg : Good n l) :
       intro ch l10 lns hl10 hs10 hlo hhi hn10
       dsimp only
       split
-      · exact errorf_sat
+      · first | exact errorf_sat | exact errorfAt_sat
       · apply Sat.bind
         em l11 hl11 hp11 hs11 hw11
         apply Sat.bind
@@ -408,7 +414,7 @@ theorem lexCss_ok {n : Int} {l : Lexer} (hg : Good n l) :
   unfold ScanFacts at hf2
   dsimp only
   split
-  · exact errorf_sat
+  · first | exact errorf_sat | exact errorfAt_sat
   · rename_i hne
     simp only [eof] at hne
     apply Sat.bind
@@ -419,7 +425,7 @@ theorem lexCss_ok {n : Int} {l : Lexer} (hg : Good n l) :
     intro bad l5 hl5 hs5 hp5 hn5
     dsimp only
     split
-    · exact errorf_sat
+    · first | exact errorf_sat | exact errorfAt_sat
     · apply Sat.bind
       em l6 hl6 hp6 hs6 hw6
       fin
@@ -436,7 +442,7 @@ theorem lexLiteral_ok {n : Int} {l : Lexer} (hg : Good n l) :
   unfold ScanFacts at hf1
   dsimp only
   split
-  · exact errorf_sat
+  · first | exact errorf_sat | exact errorfAt_sat
   · rename_i hch
     have hch' : ch = 125 := by simpa using hch
     apply Sat.bind
@@ -444,7 +450,7 @@ theorem lexLiteral_ok {n : Int} {l : Lexer} (hg : Good n l) :
     intro bad l2 hl2 hs2 hp2 hn2
     dsimp only
     split
-    · exact errorf_sat
+    · first | exact errorf_sat | exact errorfAt_sat
     · apply Sat.bind
       em l3 hl3 hp3 hs3 hw3
       apply Sat.bind
@@ -452,7 +458,7 @@ theorem lexLiteral_ok {n : Int} {l : Lexer} (hg : Good n l) :
       apply sliceOf_sat (by lx) (by lx) (by lx)
       intro rest hrest
       split
-      · exact errorf_sat
+      · first | exact errorf_sat | exact errorfAt_sat
       · rename_i i hi
         have hle := stringsIndex_le _ _ _ hi
         have hlen : ((if l3.doubleDelim = true then closeLiteral2 else closeLiteral1).length : Int) =
